@@ -6,8 +6,13 @@
    tokenised (argparse's job) and the text -> value conversion is a Section variable [conv]
    (conversion is the business of C02/C05; every theorem holds for every conversion).
 
+   The flag [pre] selects the code BEFORE the two repairs of round 2 (/repo 5bbebb1: _run_component popped
+   "subcommand" for functions and "config" for every method; /repo 2f69862: a private Optional parameter without
+   default was skipped). [pre = false] is the code as it is now; the theorems are about it. [pre = true] is kept
+   only for the regression witnesses in Properties/C12.v.
+
    Outside the modelled space the model answers [Err EUnmodelled] — never a made-up result:
-   constructor parameter named `subcommand` or like a method, subcommand named `config`,
+   constructor parameter named `subcommand` (class with methods) or like a method, subcommand named `config`,
    settings in a --config for a subcommand that is not the chosen one, choosing the subcommand from
    the config instead of the command line (that is C17), a scalar where a subcommand section is
    expected, duplicate / empty names, a parameter named `print_shtab`. *)
@@ -31,7 +36,18 @@ Record arg := { a_dest : str; a_pos : bool; a_ty : ty; a_req : bool; a_def : val
 Definition is_optional (t : ty) : bool := match t with TOpt _ => true | _ => false end.
 Definition starts_underscore (s : str) : bool := match s with 95%N :: _ => true | _ => false end.
 
-Definition arg_of_param (as_pos : bool) (p : param) : option arg :=
+(* the values YAML reads as null: a str DEFAULT of an Optional parameter goes through the same text parser
+   as command line values do (ActionTypeHint checks defaults), so `s: Optional[str] = "null"` defaults to None *)
+Definition nullish (s : str) : bool :=
+  list_eqb N.eqb s [110;117;108;108]%N || list_eqb N.eqb s [78;117;108;108]%N ||
+  list_eqb N.eqb s [78;85;76;76]%N || list_eqb N.eqb s [126]%N.
+Definition reparse_default (t : ty) (v : value) : value :=
+  match t, v with
+  | TOpt _, VStr s => if nullish s then VNone else v
+  | _, _ => v
+  end.
+
+Definition arg_of_param (pre as_pos : bool) (p : param) : option arg :=
   (* default = param.default; if empty and is_optional(annotation): default = None *)
   let d0 := match p_default p with
             | Some v => Some v
@@ -39,8 +55,11 @@ Definition arg_of_param (as_pos : bool) (p : param) : option arg :=
             end in
   (* is_required = default == inspect_empty *)
   let is_required := match d0 with None => true | Some _ => false end in
-  (* if ... (not is_required and name[0] == "_"): return *)
-  if negb is_required && starts_underscore (p_name p) then None else
+  (* is_private = name[0] == "_"; since 2f69862: False when the None default was made up for an Optional *)
+  let is_private := starts_underscore (p_name p) &&
+                    (pre || match p_default p with Some _ => true | None => false end) in
+  (* if ... (not is_required and is_private): return *)
+  if negb is_required && is_private then None else
   (* if default is None and not is_optional(annotation): annotation = Optional[annotation] *)
   let t := match d0 with
            | Some VNone => if is_optional (p_ty p) then p_ty p else TOpt (p_ty p)
@@ -48,10 +67,10 @@ Definition arg_of_param (as_pos : bool) (p : param) : option arg :=
            end in
   (* args = [dest if is_required and as_positional else "--" + dest] *)
   Some {| a_dest := p_name p; a_pos := is_required && as_pos; a_ty := t; a_req := is_required;
-          a_def := match d0 with Some v => v | None => VNone end |}.
+          a_def := match d0 with Some v => reparse_default t v | None => VNone end |}.
 
-Definition args_of_sig (as_pos : bool) (s : sig) : list arg :=
-  flat_map (fun p => match arg_of_param as_pos p with Some a => [a] | None => [] end) s.
+Definition args_of_sig (pre as_pos : bool) (s : sig) : list arg :=
+  flat_map (fun p => match arg_of_param pre as_pos p with Some a => [a] | None => [] end) s.
 
 Fixpoint find_arg (d : str) (args : list arg) : option arg :=
   match args with
@@ -116,20 +135,21 @@ Definition other_pending (m : str) (st : lstate) : bool :=
 
 Section Cli.
   Variable conv : ty -> raw -> option value.   (* text / JSON value -> Python value of the declared type *)
+  Variable pre : bool.                         (* true: the code before the round-2 repairs *)
   Variable as_pos : bool.                      (* auto_cli(as_positional=...) *)
 
-  Definition level_args (lv : level) : list arg := args_of_sig as_pos (level_sig lv).
+  Definition level_args (lv : level) : list arg := args_of_sig pre as_pos (level_sig lv).
 
   (* does the level's parser have the --config option once it is built?
      auto_cli:91 / _add_subcommands:150,156 / _add_component_to_parser:188-193 *)
   Definition level_has_config (top : bool) (lv : level) : bool :=
     match lv with
-    | LComp (CFn _ s) => top || nonempty (args_of_sig as_pos s)
+    | LComp (CFn _ s) => top || nonempty (args_of_sig pre as_pos s)
     | LComp (CCls _ i ms) =>
-        top || nonempty (args_of_sig as_pos i) || existsb (fun ms => nonempty (args_of_sig as_pos (snd ms))) ms
+        top || nonempty (args_of_sig pre as_pos i) || existsb (fun ms => nonempty (args_of_sig pre as_pos (snd ms))) ms
     | LComp (CGrp _) => true
     | LComp CHelp => false
-    | LMeth s => negb (has_param s_config s) && nonempty (args_of_sig as_pos s)
+    | LMeth s => negb (has_param s_config s) && nonempty (args_of_sig pre as_pos s)
     end.
 
   (* one --config document (or the section handed down by the parent) applied to a level *)
@@ -313,19 +333,33 @@ Fixpoint kwargs_of (c : cfg) : res (list (str * value)) :=
   end.
 
 (* ---- _run_component (_cli.py:202-215) --------------------------------------------------------- *)
-Definition run_component (c : comp) (cf : cfg) : res (list call * retv) :=
+Definition truthy (v : value) : bool :=
+  match v with
+  | VInt z => negb (Z.eqb z 0) | VStr s => nonempty s | VBool b => b | VNone => false | VList l => nonempty l
+  end.
+
+Definition run_component (pre : bool) (c : comp) (cf : cfg) : res (list call * retv) :=
   let cfg1 := remove_key s_config cf in                 (* cfg.pop("config", None) *)
-  let sub := assoc s_subcommand cfg1 in                 (* subcommand = cfg.pop("subcommand") *)
+  let sub := assoc s_subcommand cfg1 in                 (* subcommand = cfg.pop("subcommand") [if isclass(component)] *)
   let cfg2 := remove_key s_subcommand cfg1 in
   match c with
   | CFn n s =>
-      bind (kwargs_of cfg2) (fun kw => bind (py_call s kw) (fun b => Ok ([([n], b)], RetCall 0)))
+      bind (kwargs_of (if pre then cfg2 else cfg1)) (fun kw => bind (py_call s kw) (fun b => Ok ([([n], b)], RetCall 0)))
   | CCls n i ms =>
       match sub with
       | None =>
           bind (kwargs_of cfg2) (fun kw => bind (py_call i kw) (fun b =>
           Ok ([([n; s__init__], b)], RetInstance)))
-      | Some (CV (VStr m)) =>
+      | Some (CV v) =>
+          (* a class without methods: the key can only be the constructor's own parameter `subcommand`; it is
+             popped all the same, and when truthy taken for a method name: TypeError / AttributeError escapes *)
+          match ms with
+          | [] => if truthy v then Err ECrash
+                  else bind (kwargs_of cfg2) (fun kw => bind (py_call i kw) (fun b =>
+                       Ok ([([n; s__init__], b)], RetInstance)))
+          | _ =>
+          match v with
+          | VStr m =>
           match assoc m ms with
           | None => Err EUnmodelled
           | Some msig =>
@@ -335,12 +369,16 @@ Definition run_component (c : comp) (cf : cfg) : res (list call * retv) :=
                     | Some (CV _) => Err EUnmodelled
                     end) (fun mcfg =>
               let cfg3 := remove_key m cfg2 in
-              let mcfg' := remove_key s_config mcfg in  (* subcommand_cfg.pop("config", None) *)
+              (* [if not has_parameter(method, "config"):] subcommand_cfg.pop("config", None) *)
+              let mcfg' := if pre || negb (has_param s_config msig) then remove_key s_config mcfg else mcfg in
               bind (kwargs_of cfg3) (fun kw => bind (py_call i kw) (fun b1 =>      (* component( **cfg ) *)
               bind (kwargs_of mcfg') (fun kw2 => bind (py_call msig kw2) (fun b2 => (* method( **subcommand_cfg ) *)
               Ok ([([n; s__init__], b1); ([n; m], b2)], RetCall 1))))))
           end
-      | Some _ => Err EUnmodelled
+          | _ => Err EUnmodelled
+          end
+          end
+      | Some (CN _) => Err EUnmodelled
       end
   | _ => Err ECrash
   end.
@@ -387,7 +425,7 @@ Fixpoint build_check (c : comp) : res unit :=
   match c with
   | CFn _ s => check_fn_sig s
   | CCls _ i ms =>
-      if negb (meth_names_ok i ms) || has_param s_subcommand i then Err EUnmodelled
+      if negb (meth_names_ok i ms) || (has_param s_subcommand i && nonempty ms) then Err EUnmodelled
       else bind (check_fn_sig i) (fun _ => check_meths ms)
   | CGrp kids =>
       if negb (kid_names_ok kids) then Err EUnmodelled
@@ -419,12 +457,12 @@ Definition normalize (cs : components) : res comp :=
   end.
 
 (* ---- auto_cli ------------------------------------------------------------------------------- *)
-Definition auto_cli (conv : ty -> raw -> option value) (as_pos : bool) (cs : components) (toks : list tok)
+Definition auto_cli (pre : bool) (conv : ty -> raw -> option value) (as_pos : bool) (cs : components) (toks : list tok)
   : res (list call * retv) :=
   bind (normalize cs) (fun c =>
   bind (build_check c) (fun _ =>
-  bind (init_state conv as_pos true (LComp c) []) (fun st0 =>
-  bind (parse conv as_pos true (LComp c) st0 toks []) (fun frames =>
+  bind (init_state conv pre as_pos true (LComp c) []) (fun st0 =>
+  bind (parse conv pre as_pos true (LComp c) st0 toks []) (fun frames =>
   let init := nest frames in                                   (* instantiate_classes: nothing to do *)
   match c with
   | CGrp kids =>
@@ -432,15 +470,15 @@ Definition auto_cli (conv : ty -> raw -> option value) (as_pos : bool) (cs : com
       | Some (CV (VStr m)) =>
           bind (dispatch_loop (S (length frames)) kids init [m]) (fun path =>
           match comps_get path kids, cfg_get path init with
-          | Some comp', Some (CN sub) => run_component comp' sub
+          | Some comp', Some (CN sub) => run_component pre comp' sub
           | _, _ => Err ECrash
           end)
       | _ => Err ECrash
       end
-  | _ => run_component c init
+  | _ => run_component pre c init
   end)))).
 
-(* ---- the guard of the theorem = the finding class of the correspondence judge ----------------
+(* ---- the guards of round 1 (both defects are repaired in /repo now; kept for the regression witnesses) ----
    no function parameter is called `subcommand`, no method parameter is called `config` *)
 Fixpoint guard_comp (c : comp) : bool :=
   match c with
@@ -478,4 +516,46 @@ Definition no_private_optional_without_default (cs : components) : bool :=
   | One c => guard2_comp c
   | Lst l => forallb guard2_comp l
   | Dct kids => forallb (fun kc => guard2_comp (snd kc)) kids
+  end.
+
+(* ---- the guards of the theorem about the present code = the finding classes of the correspondence judge ---- *)
+(* A: no class whose constructor has a parameter called `subcommand` *)
+Fixpoint guardA_comp (c : comp) : bool :=
+  match c with
+  | CFn _ _ => true
+  | CCls _ i _ => negb (has_param s_subcommand i)
+  | CGrp kids => (fix go (l : list (str * comp)) : bool :=
+                    match l with [] => true | (_, c') :: l' => guardA_comp c' && go l' end) kids
+  | CHelp => true
+  end.
+
+Definition no_class_subcommand_param (cs : components) : bool :=
+  match cs with
+  | One c => guardA_comp c
+  | Lst l => forallb guardA_comp l
+  | Dct kids => forallb (fun kc => guardA_comp (snd kc)) kids
+  end.
+
+(* B: no Optional parameter whose default is a string that YAML reads as null *)
+Definition nullish_default (p : param) : bool :=
+  match p_ty p, p_default p with
+  | TOpt _, Some (VStr s) => nullish s
+  | _, _ => false
+  end.
+Definition sig_guard3 (s : sig) : bool := negb (existsb nullish_default s).
+
+Fixpoint guardB_comp (c : comp) : bool :=
+  match c with
+  | CFn _ s => sig_guard3 s
+  | CCls _ i ms => sig_guard3 i && forallb (fun ms => sig_guard3 (snd ms)) ms
+  | CGrp kids => (fix go (l : list (str * comp)) : bool :=
+                    match l with [] => true | (_, c') :: l' => guardB_comp c' && go l' end) kids
+  | CHelp => true
+  end.
+
+Definition no_nullish_str_default (cs : components) : bool :=
+  match cs with
+  | One c => guardB_comp c
+  | Lst l => forallb guardB_comp l
+  | Dct kids => forallb (fun kc => guardB_comp (snd kc)) kids
   end.
